@@ -245,7 +245,8 @@ pub fn run(prop: PathProp, tier: Tier, seed: u64) -> i32 {
                 PathProp::C01 | PathProp::C02 | PathProp::C03 => 0.25,
                 _ => 0.1,
             });
-            let sc = make_scenario(&mut r, &cfg);
+            let mut sc = make_scenario(&mut r, &cfg);
+            odd_start(prop, &mut r, &mut sc, &mut b);
             run_case(prop, &ctx, &mut b, &sc);
             i += shards;
         }
@@ -298,6 +299,40 @@ pub fn run(prop: PathProp, tier: Tier, seed: u64) -> i32 {
         PathProp::C05 => ("cases = planner runs with step sizes / radii from 1e-3x to 10x the space diameter; consecutive path states must be within the configured limit in the space's own metric; distinct+non-trivial = distinct returned paths with >= 3 states", vec!["tolerance: rounding + 5e-6 per unit weight of SO3 components"]),
     };
     ctx.finish(rule, &assumptions, json!({"cases": n_cases}))
+}
+
+/// Start states in unusual but legitimate representations. C04 / C05: an angle stored several
+/// turns away from [-pi, pi] (the public `value` field; `satisfies_bounds` accepts it, and the
+/// planners must take the short way from it all the same). C05 only (C04 presupposes an in-bounds
+/// start): a start outside the sampling box of a real-vector component.
+fn odd_start(prop: PathProp, r: &mut Sm, sc: &mut Scenario, b: &mut Batch) {
+    use crate::spec::CK;
+    if !matches!(prop, PathProp::C04 | PathProp::C05) || !r.bool(0.12) {
+        return;
+    }
+    let spec = sc.problem.spec.clone();
+    let offs = spec.offsets();
+    let so2: Vec<usize> = (0..spec.comps.len()).filter(|i| matches!(spec.comps[*i].kind, CK::So2 { .. })).collect();
+    let boxed: Vec<usize> = (0..spec.comps.len()).filter(|i| matches!(&spec.comps[*i].kind, CK::R { bounds: Some(_), .. })).collect();
+    if !so2.is_empty() && (prop == PathProp::C04 || boxed.is_empty() || r.bool(0.5)) {
+        let ci = *r.pick(&so2);
+        let k = *r.pick(&[-3.0, -2.0, -1.0, 1.0, 2.0, 3.0]);
+        sc.problem.start[offs[ci]] += k * 2.0 * std::f64::consts::PI;
+        sc.problem.tags.push("start-angle-unnormalised".into());
+        b.count("starts_with_unnormalised_angle", 1);
+    } else if prop == PathProp::C05 && !boxed.is_empty() {
+        let ci = *r.pick(&boxed);
+        if let CK::R { n, bounds: Some(bs) } = &spec.comps[ci].kind {
+            let j = r.below(*n);
+            let (lo, hi) = bs[j];
+            if lo.is_finite() && hi.is_finite() {
+                let out = (hi - lo).max(sc.params.max_distance) * r.range(0.2, 2.0);
+                sc.problem.start[offs[ci] + j] = if r.bool(0.5) { hi + out } else { lo - out };
+                sc.problem.tags.push("start-outside-the-box".into());
+                b.count("starts_outside_the_box", 1);
+            }
+        }
+    }
 }
 
 pub fn replay(prop: PathProp, v: &serde_json::Value, file: &str) -> i32 {
